@@ -98,6 +98,20 @@ class Case:
                 f'c = concepts.Context(objects, properties, rows)\n')
 
 
+def sibling_schedule(case):
+    """Two live contexts over the SAME labels with different tables, created
+    back to back before either is used (e.g. Context(*definition) after editing a
+    cell).  Returns (older, case context, newer, Ref of the sibling table): the
+    siblings hold the complemented table.  Interleavings explored by the callers:
+    create-older, create-A, create-newer, then use older / use A."""
+    import concepts
+    inv = [tuple(not b for b in r) for r in case.rows]
+    older = concepts.Context(case.objs, case.props, inv)
+    a = concepts.Context(case.objs, case.props, case.rows)
+    newer = concepts.Context(case.objs, case.props, inv)
+    return older, a, newer, Ref(inv)
+
+
 def misaligned(prop, case):
     return common.violation(prop, 'precondition-concept-set', case.ident(),
                             'lattice members == formal concepts of the table (C03)',
@@ -136,6 +150,13 @@ def labelings_for(tag, both=True):
     return (space.ASC, space.DESC) if both else (space.ASC,)
 
 
+# The last few cases explored by this worker process, whatever the shard: the
+# library may keep process-global state (class-level defaults, caches), so the
+# "state" a case starts from includes its predecessors.  A violation records
+# them and the replay re-executes them first.
+RECENT = collections.deque(maxlen=3)
+
+
 def run_shard_generic(shard, tier, prop, check_case, both_labelings=True,
                       max_violations=5, sample_every=997):
     """Explore every table of a shard with ``check_case(case, ctr)``."""
@@ -156,17 +177,21 @@ def run_shard_generic(shard, tier, prop, check_case, both_labelings=True,
             except Exception as e:
                 vs = [common.library_exception(prop, case.ident(), e)]
             ctr['evaluations'] += 1
+            for v in vs:
+                v['case']['after'] = [dict(x) for x in RECENT]
+            RECENT.append({'tag': list(case.tag), 'labeling': case.labeling})
             if first:
                 first = False
                 ctr['tables'] += 1
                 try:
-                    if case.ref.nontrivial():
+                    nt = case.ref.nontrivial()
+                    if nt:
                         ctr['nontrivial'] += 1
                     outcomes.add(case.ref.signature())
                 except RefError as e:
                     raise common.HarnessError(f'{prop}: {e} on {tag}')
-                if ctr['tables'] % sample_every == 1 and len(samples) < 2:
-                    samples.append(case.ident())
+                if nt and not samples and (ctr['tables'] + common.seed()) % 7 == 0:
+                    samples.append(case.ident(concepts=len(case.ref.concepts)))
             if vs:
                 viols.extend(vs[:2])
                 if len(viols) >= max_violations:
@@ -191,8 +216,15 @@ def main_e1(mod, tier):
 def replay_e1(mod, v):
     """Re-execute one recorded case without the explorer."""
     import collections as _c
-    case = case_from_ident(v['case'])
     ctr = _c.Counter()
+    for prev in v['case'].get('after', ()):      # predecessors in the same process first
+        try:
+            mod.check_case(case_from_ident(prev), ctr)
+        except (RefError, common.HarnessError):
+            raise
+        except Exception:
+            pass
+    case = case_from_ident(v['case'])
     try:
         return mod.check_case(case, ctr)
     except (RefError, common.HarnessError):
